@@ -198,7 +198,9 @@ func runC12(c *hx.Ctx) {
 	// the dying client's own queue is full and it is subscribed to its own will topic: every other observer still gets the will
 	ownQueueFull(o, c, true)
 	keepAlive(o, c)
+	willBehindBlockedWrite(o, c)
 	willObservers(o, c)
+	retainedWillDuringSubscribe(o, c)
 	// clean DISCONNECT: no will, whatever the observers do
 	{
 		n := o.scn("c12 clean disconnect: no will")
